@@ -107,3 +107,44 @@ Proof. simpl. f_equal. induction fields as [|[k f] tl IH]; simpl; [reflexivity|]
 (** the data of a whole request, declaratively *)
 Definition ddata (root : selset) : option json :=
   if fails_inner (VObj root) then None else Some (jv (VObj root)).
+
+(** ** the sites that must have fired once a position has completed without failing: the
+    failure-nulls it leaves visible.  A failing nullable position contributes its own site (and
+    hides what is beneath it); a position that does not fail contributes what its parts do. *)
+Definition must_catch (nn : bool) (q : rpath) (fails : bool) (esc : list err) (inner : list site) : list site :=
+  if nn then inner else if fails then [(slice q, esc)] else inner.
+
+Definition must_items (f : vplan -> rpath -> list site) (inn : bool) (p : rpath) :=
+  fix go (l : list vplan) (i : nat) {struct l} : list site :=
+    match l with
+    | [] => []
+    | x :: tl =>
+        let q := PIdx i :: p in
+        must_catch inn q (fails_w inn x) (fst (cand_nn inn q x (cand_inner x q))) (f x q) ++ go tl (S i)
+    end.
+
+Definition must_sel (f : fplan -> rpath -> list site) (p : rpath) :=
+  fix go (l : selset) {struct l} : list site :=
+    match l with
+    | [] => []
+    | (key, fp) :: tl =>
+        let q := PKey key :: p in
+        must_catch (fp_nn fp) q (fails_f fp) (fst (cand_field fp q)) (f fp q) ++ go tl
+    end.
+
+Fixpoint must_I (v : vplan) (p : rpath) {struct v} : list site :=
+  match v with
+  | VList inn items => must_items must_I inn p items 0
+  | VObj fields => must_sel must_F p fields
+  | _ => []
+  end
+with must_F (f : fplan) (p : rpath) {struct f} : list site :=
+  match f with
+  | FP _ _ None => []
+  | FP _ _ (Some v) => must_I v p
+  end.
+
+Definition must_CI (inn : bool) (x : vplan) (q : rpath) : list site :=
+  must_catch inn q (fails_w inn x) (fst (cand_nn inn q x (cand_inner x q))) (must_I x q).
+Definition must_CF (fp : fplan) (q : rpath) : list site :=
+  must_catch (fp_nn fp) q (fails_f fp) (fst (cand_field fp q)) (must_F fp q).
